@@ -9,4 +9,9 @@ theorem T08_life_cycle_flags_consulted :
     (mentionsDirectly "C_SetAttributeValue" "bool:CKA_MODIFIABLE" && mentionsDirectly "C_CopyObject" "bool:CKA_COPYABLE" && mentionsDirectly "C_DestroyObject" "bool:CKA_DESTROYABLE" &&
      ["C_SetAttributeValue", "C_CopyObject", "C_DestroyObject"].all (fun f => mentionsDirectly f "rv:CKR_ACTION_PROHIBITED")) = true := by decide +kernel
 
+/-- every derivation function takes the derived key's history attributes from the BASE key's history attributes (CKA_ALWAYS_SENSITIVE, CKA_NEVER_EXTRACTABLE), not from its current flags -/
+theorem T08_derivations_read_history_attributes :
+    ["deriveDH", "deriveECDH", "deriveEDDSA", "deriveSymmetric"].all (fun f =>
+      mentionsDirectly f "bool:CKA_ALWAYS_SENSITIVE" && mentionsDirectly f "bool:CKA_NEVER_EXTRACTABLE") = true := by decide +kernel
+
 end Shm.FactsC08
